@@ -5,6 +5,8 @@ V=os.path.dirname(os.path.abspath(__file__))
 import glob
 checks={os.path.basename(f)[:-5]:json.load(open(f)) for f in sorted(glob.glob(os.path.join(V,'checks','C*.json')))}
 ids=[json.loads(l)['id'] for l in open(os.path.join(V,'properties.jsonl'))]
+accepted=set(open(os.path.join(V,'accepted.txt')).read().split())
+checks={k:v for k,v in checks.items() if k in accepted}
 na_reasons=json.load(open(os.path.join(V,'not_applicable.json'))) if os.path.exists(os.path.join(V,'not_applicable.json')) else {}
 m={"version":1,
  "setup_cmd":"python3 /verif/check.py --setup",
